@@ -24,7 +24,10 @@ RULE = ("values: nested containers (depth <= 4), unicode incl. astral, combining
         "internals: ctx('__state') etc. must be refused, ctx() must show no `__*` key (bare, embedded in text, iterated by "
         "a Jinja block statement), no `__*` key in any stored delta or output, and the whole context handed to an action, "
         "published and rendered as output while conducting (inside and outside a with-items task) shows none, while a "
-        "user value with a `__` key below the top level stays as it is; non-trivial = container value or a string/number from the hostile classes; distinct = value digest")
+        "user value with a `__` key below the top level stays as it is; republish: pairs of values equal under == but of different "
+        "type (True/1/1.0, 0/False/0.0, 2**53 and its float, nested ones, empty string/None/containers) published one after "
+        "the other for one variable, with and without persist/restore, and a mapping-valued variable re-published by one "
+        "transition while a sibling transition of the same task reads it (every ctx form, both transition orders); non-trivial = container value or a string/number from the hostile classes; distinct = value digest")
 ASSUMPTIONS = ASSUME_SIM + ["NaN is excluded (not a JSON value); float comparison is exact"]
 
 DELIMS = ("<%", "%>", "{{", "}}", "{%", "%}", "{#", "#}")
@@ -205,6 +208,122 @@ def values(job):
     return out
 
 
+TWINS = [(True, 1), (1, True), (1, 1.0), (1.0, 1), (0, False), (False, 0), (0, 0.0), (0.0, 0), (2 ** 53, float(2 ** 53)),
+         (float(2 ** 64), 2 ** 64), ([1], [True]), ([1.0], [1]), ({"k": 1}, {"k": True}), ({"k": [1, {"z": 0}]}, {"k": [1.0, {"z": False}]}),
+         ("", None), (None, ""), ([], {}), ({}, []), ("1", 1), (1, "1"), ("true", True), (None, 0), (0, None), (None, False)]
+
+
+def republish(job):
+    """values that are equal under == but differ in type, published one after the other for the same variable; and a
+    mapping-valued variable re-published by one transition while a sibling transition of the same task reads it"""
+    out = dict(evaluations=0, nontrivial=set(), violations=[], samples=[], counters={}, sets={})
+    C = out["counters"]
+
+    def viol(kind, detail, subject=None):
+        out["violations"].append(dict(prop="C16", kind=kind, detail=detail[:600], subject=subject, cause=None,
+                                      workload="republish", job=dict(job)))
+
+    def conduct(wf, results, label):
+        ms = [m for m in workloads.monitors(dict(double_poll=False)) if m.name in ("keyscan", "status")]
+        run = explore.make_run(dict(wf=wf, inputs={}, oseed=0, p_fail=0.0), ms, model=None, label=label)
+        run.outcomes.force = lambda a: ("succeeded", copy.deepcopy(results.get(a["task"])), True)
+        explore.run_free(run, explore.Policy(pseed=1))
+        run.finish()
+        for x in run.violations:
+            if x["prop"] == "C16":
+                viol(x["kind"], x["detail"], subject=x.get("subject"))
+        return run
+
+    for lang in ("yaql", "jinja"):
+        y = lang == "yaql"
+        r = (lambda n: "<%% ctx(%s) %%>" % n) if y else (lambda n: "{{ ctx('%s') }}" % n)
+        res = "<% result() %>" if y else "{{ result() }}"
+        for v1, v2 in TWINS:
+            wf = {"version": 1.0, "vars": [{"a": "unset"}],
+                  "tasks": {"t0": {"action": "core.echo", "next": [{"publish": [{"a": res}], "do": "t1"}]},
+                            "t1": {"action": "core.echo", "input": {"x": r("a")}, "next": [{"publish": [{"a": res}], "do": "t2"}]},
+                            "t2": {"action": "core.echo", "input": {"x": r("a")}}},
+                  "output": [{"a": r("a")}]}
+            if not workloads.inspect_ok(wf):
+                C["republish_rejected"] = C.get("republish_rejected", 0) + 1
+                continue
+            for crash in (False, True):
+                run = conduct(wf, {"t0": v1, "t1": v2, "t2": None}, "twins %r %r %s" % (v1, v2, lang))
+                if crash:
+                    # same history with a persist / restore before every completion
+                    run = explore.make_run(dict(wf=wf, inputs={}, oseed=0, p_fail=0.0), [], model=None)
+                    run.outcomes.force = lambda a, v1=v1, v2=v2: ("succeeded", copy.deepcopy({"t0": v1, "t1": v2}.get(a["task"])), True)
+                    run.request("running")
+                    for _ in range(8):
+                        run.poll()
+                        run.crash()
+                        if not run.inflight:
+                            break
+                        run.complete(0)
+                    if run.status() == "succeeded":
+                        run.render()
+                out["evaluations"] += 1
+                out["nontrivial"].add("twins %r %r %s %s" % (v1, v2, lang, crash))
+                C["type_twin_runs"] = C.get("type_twin_runs", 0) + 1
+                seen = {}
+                for o in run.offers:
+                    if o["task"] in ("t1", "t2"):
+                        seen["input of %s" % o["task"]] = ((o.get("input") or {}).get("x", "<absent>"), v1 if o["task"] == "t1" else v2)
+                seen["output"] = ((run.c.get_workflow_output() or {}).get("a", "<absent>"), v2)
+                if run.status() != "succeeded" or len(seen) < 3:
+                    viol("path_failed", "type-twin path %r -> %r (%s) ended %s, saw %r, errors %r"
+                         % (v1, v2, lang, run.status(), sorted(seen), run.c.errors[:2]), subject=lang)
+                    continue
+                for where, (got, want) in seen.items():
+                    C["type_twin_stages"] = C.get("type_twin_stages", 0) + 1
+                    if not same_unordered(got, want):
+                        viol("value_changed_on_path", "%s: %s is %r (%s), the value published last is %r (%s); published before: %r"
+                             % (lang, where, got, type(got).__name__, want, type(want).__name__, v1), subject=where)
+                        break
+        # mapping-valued variable: one transition re-publishes it, a sibling transition of the same task reads it
+        old = {"a": 1, "n": {"k": 1}, "l": [1, {"m": 1}]}
+        new = {"b": 2, "n": {"j": 2}, "l": [2]}
+        reads = ["<% ctx().cfg %>", "<% ctx(cfg) %>"] if y else ["{{ ctx().cfg }}", "{{ ctx('cfg') }}"]
+        for read in reads:
+            for order in (0, 1):
+                tr_pub = {"publish": [{"cfg": copy.deepcopy(new)}], "do": "t1"}
+                tr_read = {"publish": [{"seen": read}], "do": "t2"}
+                wf = {"version": 1.0, "vars": [{"cfg": copy.deepcopy(old)}, {"seen": None}],
+                      "tasks": {"t0": {"action": "core.noop", "next": [tr_pub, tr_read] if order == 0 else [tr_read, tr_pub]},
+                                "t1": {"action": "core.echo", "input": {"c": r("cfg")}},
+                                "t2": {"action": "core.echo", "input": {"c": r("cfg"), "s": r("seen")}}},
+                      "output": [{"seen": r("seen")}]}
+                if not workloads.inspect_ok(wf):
+                    C["republish_rejected"] = C.get("republish_rejected", 0) + 1
+                    continue
+                run = conduct(wf, {}, "sibling %s %d" % (read, order))
+                out["evaluations"] += 1
+                out["nontrivial"].add("sibling %s %d" % (read, order))
+                C["sibling_runs"] = C.get("sibling_runs", 0) + 1
+                seen = {}
+                for o in run.offers:
+                    i = o.get("input") or {}
+                    if o["task"] == "t1":
+                        seen["t1 input cfg"] = (i.get("c", "<absent>"), new)
+                    if o["task"] == "t2":
+                        seen["t2 input cfg"] = (i.get("c", "<absent>"), old)
+                        seen["t2 input seen"] = (i.get("s", "<absent>"), old)
+                seen["output seen"] = ((run.c.get_workflow_output() or {}).get("seen", "<absent>"), old)
+                st = run.c.serialize()["state"]["contexts"]
+                seen["initial context cfg"] = (st[0].get("cfg"), old)
+                if run.status() != "succeeded" or len(seen) < 5:
+                    viol("path_failed", "sibling-transition path (%s, order %d) ended %s, saw %r, errors %r"
+                         % (read, order, run.status(), sorted(seen), run.c.errors[:2]), subject=lang)
+                    continue
+                for where, (got, want) in seen.items():
+                    C["sibling_stages"] = C.get("sibling_stages", 0) + 1
+                    if not same_unordered(got, want):
+                        viol("value_changed_on_path", "%s / transition order %d: %s is %r, expected %r (a sibling transition "
+                             "published %r for cfg)" % (read, order, where, got, want, new), subject=where)
+                        break
+    return out
+
+
 def internals(job):
     """engine internals are never readable through ctx and never leak"""
     out = dict(evaluations=0, nontrivial=set(), violations=[], samples=[], counters={}, sets={})
@@ -318,7 +437,7 @@ def conduct_purity(job):
 
 def jobs(tier, seed):
     js = batches("values", scale(tier, 2400, 40000), scale(tier, 150, 500), gseed=seed, name="values")
-    js += [dict(fn="internals", name="internals")]
+    js += [dict(fn="internals", name="internals"), dict(fn="republish", name="republish")]
     js += batches("conduct_purity", scale(tier, 60, 2000), scale(tier, 10, 100), gen="mix", p_loop=0.3, gseed=seed + 1,
                   P=dict(p_pub=0.8, p_items=0.2, p_retry=0.2, p_ainput=0.5), scheds=1, name="purity-under-conducting")
     if tier == "thorough":
